@@ -36,8 +36,11 @@ ASSUMPTIONS = [
     "x[dask_mask] = non-scalar value is refused by dask with ValueError (sizes unknown; stated in Array.__setitem__) and is "
     "counted as out-of-domain",
     "integer indices are not combined with an array indexer across a slice (NumPy's transposition rule for separated "
-    "advanced indices: dask's differing semantics is C20's finding advanced_nonadjacent)",
+    "advanced indices: dask's differing layout is C20's listed finding advanced-dim-not-moved-first)",
     "length-1 axes split into several blocks by an explicit zero-size chunk are not generated (C19's listed finding)",
+    "zero-length axes and explicit zero-size chunks are separate low-probability strata (<= ~10 % of the random cases each); an empty "
+    "selection with a non-scalar value is generated only occasionally (listed finding empty-selection-nonscalar-value)",
+    "every compute, including implicit ones inside dask (a dask scalar as slice bound), runs on the synchronous scheduler",
 ]
 TECHNIQUE = "differential testing against NumPy assignment over exhaustive chunkings of small arrays and Hypothesis-generated index/value combinations"
 
